@@ -19,12 +19,17 @@
 (*  Defect_NoVersionCheck      a reader attaches / creates the shared cache *)
 (*      although its snapshot is not the cache's content version, and       *)
 (*      inserts what it reads  -> stale cache, readers see other versions   *)
+(* One more switch is a change that was seeded into the code (FALSE in the  *)
+(* pinned code): Defect_ReaderUnlocked lets the writer attach while readers *)
+(* still work on the object (ShardCache.unlocked.cfg: a reader then sees    *)
+(* what the open batch has written).                                        *)
 (* With both FALSE (per-reader bucket handle, version check) the unguarded  *)
 (* invariants hold.  With both TRUE the invariants hold only outside the    *)
 (* signatures sigA / sigB of the two known findings C09-a / C09-b.          *)
 (***************************************************************************)
 EXTENDS Integers, Sequences, FiniteSets, TLC
-CONSTANTS Readers, Keys, MaxVer, MaxObj, Defect_SharedBucketHandle, Defect_NoVersionCheck, AllowEvict
+CONSTANTS Readers, Keys, MaxVer, MaxObj, Defect_SharedBucketHandle, Defect_NoVersionCheck, AllowEvict,
+          Defect_ReaderUnlocked    \* a reader does not keep the cache's read lock while it works on the shared object (seeded change C09-F)
 Objs == 1..MaxObj
 NC == -1          \* not cached
 W == "w"
@@ -96,7 +101,7 @@ WAttach == /\ wst = "open"
               THEN /\ nextObj <= MaxObj /\ inMap' = nextObj /\ nextObj' = nextObj + 1 /\ wobj' = nextObj
                    /\ cwriter' = [cwriter EXCEPT ![nextObj] = TRUE] /\ bucketOf' = [bucketOf EXCEPT ![nextObj] = W]
                    /\ contentVer' = [contentVer EXCEPT ![nextObj] = ver]
-              ELSE /\ creaders[inMap] = {} /\ ~cwriter[inMap] /\ wobj' = inMap
+              ELSE /\ (Defect_ReaderUnlocked \/ creaders[inMap] = {}) /\ ~cwriter[inMap] /\ wobj' = inMap
                    /\ cwriter' = [cwriter EXCEPT ![inMap] = TRUE] /\ bucketOf' = [bucketOf EXCEPT ![inMap] = W]
                    /\ UNCHANGED <<inMap,nextObj,contentVer>>
            /\ wst' = "attached"
